@@ -13,7 +13,9 @@ pub open spec fn cnt(present: bool, is_empty: bool, raw: Option<Vec<u8>>) -> int
 pub open spec fn ps_part(k: u64, ps: Option<PlutusScripts>, l: Language, raw: Option<Vec<u8>>) -> Seq<Tok> {
     if ps is Some && ps->Some_0.has(l) { if raw is Some { seq![Tok::UInt(k), Tok::Raw(raw->Some_0@)] } else { seq![Tok::UInt(k)] + ps->Some_0.enc_ver(false, l) } } else { Seq::empty() }
 }
-pub open spec fn ps_cnt(ps: Option<PlutusScripts>, l: Language) -> int { if ps is Some && ps->Some_0.has(l) { 1 } else { 0 } }
+/// a Plutus script field is written iff the scripts are present and the version's list is kept as original bytes (even an empty array) or non-empty:
+/// the same rule as for every other field (property C04: an untouched field is re-emitted byte for byte)
+pub open spec fn ps_cnt(ps: Option<PlutusScripts>, l: Language, raw: Option<Vec<u8>>) -> int { if ps is Some && (raw is Some || ps->Some_0.has(l)) { 1 } else { 0 } }
 pub open spec fn raw_of(r: Option<TransactionWitnessSetRaw>) -> TransactionWitnessSetRaw {
     match r { Some(x) => x, None => TransactionWitnessSetRaw { vkeys: None, native_scripts: None, bootstraps: None, plutus_scripts_v1: None, plutus_scripts_v2: None, plutus_scripts_v3: None, plutus_data: None, redeemers: None } }
 }
@@ -23,7 +25,7 @@ pub open spec fn ws_count(w: TransactionWitnessSet, r: TransactionWitnessSetRaw)
     cnt(w.vkeys is Some, emp(w.vkeys), r.vkeys) + cnt(w.native_scripts is Some, emp(w.native_scripts), r.native_scripts)
       + cnt(w.bootstraps is Some, emp(w.bootstraps), r.bootstraps) + cnt(w.plutus_data is Some, emp(w.plutus_data), r.plutus_data)
       + cnt(w.redeemers is Some, emp(w.redeemers), r.redeemers)
-      + ps_cnt(w.plutus_scripts, lang_v1()) + ps_cnt(w.plutus_scripts, lang_v2()) + ps_cnt(w.plutus_scripts, lang_v3())
+      + ps_cnt(w.plutus_scripts, lang_v1(), r.plutus_scripts_v1) + ps_cnt(w.plutus_scripts, lang_v2(), r.plutus_scripts_v2) + ps_cnt(w.plutus_scripts, lang_v3(), r.plutus_scripts_v3)
 }
 // "apply" form: what the tokens written so far (s) become after one optional entry.  Stating the encoder's effect as a
 // composition of these avoids extensional sequence reasoning inside the big function.
@@ -34,7 +36,7 @@ pub open spec fn ap(s: Seq<Tok>, k: u64, present: bool, is_empty: bool, raw: Opt
     else { s }
 }
 pub open spec fn ap_ps(s: Seq<Tok>, k: u64, ps: Option<PlutusScripts>, l: Language, raw: Option<Vec<u8>>) -> Seq<Tok> {
-    if ps is Some && ps->Some_0.has(l) { if raw is Some { s.push(Tok::UInt(k)).push(Tok::Raw(raw->Some_0@)) } else { s.push(Tok::UInt(k)) + ps->Some_0.enc_ver(false, l) } } else { s }
+    if ps is Some && (raw is Some || ps->Some_0.has(l)) { if raw is Some { s.push(Tok::UInt(k)).push(Tok::Raw(raw->Some_0@)) } else { s.push(Tok::UInt(k)) + ps->Some_0.enc_ver(false, l) } } else { s }
 }
 #[verifier::opaque]
 pub open spec fn a0(s: Seq<Tok>, w: TransactionWitnessSet, r: TransactionWitnessSetRaw) -> Seq<Tok> { ap(s, 0, w.vkeys is Some, emp(w.vkeys), r.vkeys, e_or(w.vkeys)) }
